@@ -12,6 +12,7 @@ mod scen_loops;
 mod scen_parse;
 mod scen_prog;
 mod scen_stack;
+mod scen_topo;
 mod stategen;
 
 use std::io::{BufRead, Write};
@@ -64,6 +65,7 @@ fn main() {
                     &mut out,
                 ),
                 "steps" => scen_prog::run_steps(seed, tier, args.get(5).map(|s| s.as_str()).unwrap_or("*"), &mut out),
+                "topo" => scen_topo::run(seed, tier, &mut out),
                 "parse" => scen_parse::run(seed, tier, &mut out),
                 "roundtrip" => scen_parse::run_rt(seed, tier, &mut out),
                 "loops" => scen_loops::run(seed, tier, &mut out),
@@ -76,6 +78,7 @@ fn main() {
                         scen_buf::run_exhaustive(7, 4, &mut out)
                     }
                 }
+                "listops" => scen_exec::run_listops(seed, tier, &mut out),
                 "vecgrid" => scen_exec::run_vecgrid(seed, tier, &mut out),
                 "codeops" => scen_exec::run_codeops(seed, tier, args.get(5).map(|s| s.as_str()).unwrap_or("CODE."), &mut out),
                 "stkgrid" => scen_grid::run(&mut out),
@@ -103,6 +106,7 @@ fn main() {
                         };
                         match kind.as_str() {
                             "stackop" => scen_stack::replay(&xs[1..]),
+                            "topo" => scen_topo::replay(&xs[1..]),
                             "parse" => scen_parse::replay_parse(&xs[1..]),
                             "roundtrip" => scen_parse::replay_rt(&xs[1..]),
                             "bufseq" => scen_buf::replay(&xs[1..]),
